@@ -203,15 +203,9 @@ pub fn spec_texts(quick: bool) -> Vec<(String, YaccKind, String)> {
 
 pub fn run(ctx: Ctx) -> i32 {
     if let Some(case) = load_replay(&ctx) {
-        let text = case["text"].as_str().unwrap_or("").to_string();
-        let mut st = Stats::default();
-        for (t, yk, _) in spec_texts(false) {
-            if t == text {
-                check_text(&ctx, &text, yk, &all_inputs(3, 3), &mut st, "replay");
-                break;
-            }
-        }
-        return ctx.finish(json!({"states":1,"transitions":1,"traces_validated_against_impl":1,"samples":[case]}), &[], false);
+        // the quick exploration takes a few seconds: replay = run it again and keep the violations
+        // of the stored case (same text, storage width and integer encoding)
+        ctx.replay_only(&["text", "width", "format"], &case);
     }
     let texts = spec_texts(ctx.quick());
     let inputs = all_inputs(3, if ctx.quick() { 3 } else { 4 });
